@@ -1471,6 +1471,37 @@ func c02scenarios() []*scenario {
 			}
 		}
 	}
+	{
+		// Staged, no Byzantine member - behaviour AFTER a decision (round four of the independent changes, C04/a: a member that
+		// had moved past the decided round, decided from a peer's DECIDED and then answered a second lagger): round 1
+		// (leader 0, value A) ends with member 0 deciding A from a COMMIT quorum while the others time out into round 2
+		// before they see the commits - in variant "late3" member 3 has seen nothing at all. Members decide by different
+		// routes (COMMIT quorum, a peer's DECIDED, in different rounds) and then answer the remaining laggers' ROUND-CHANGEs,
+		// so every member behaves on its own: four groups.
+		A := int64(1)
+		pp1 := msel{MsgPrePrepare, 0, 1, A}
+		pre := func(src int64) msel { return msel{MsgPrepare, src, 1, A} }
+		com := func(src int64) msel { return msel{MsgCommit, src, 1, A} }
+		all := []pstep{
+			{m: 0, msgs: []msel{pp1}}, {m: 1, msgs: []msel{pp1}}, {m: 2, msgs: []msel{pp1}}, {m: 3, msgs: []msel{pp1}},
+			{m: 0, msgs: []msel{pre(0), pre(1), pre(2)}}, {m: 1, msgs: []msel{pre(0), pre(1), pre(2)}}, {m: 2, msgs: []msel{pre(0), pre(1), pre(2)}}, {m: 3, msgs: []msel{pre(0), pre(1), pre(2)}},
+			{m: 0, msgs: []msel{com(0), com(1), com(2)}},
+			{m: 1, timeout: true}, {m: 2, timeout: true}, {m: 3, timeout: true},
+		}
+		late3 := []pstep{
+			{m: 0, msgs: []msel{pp1}}, {m: 1, msgs: []msel{pp1}}, {m: 2, msgs: []msel{pp1}},
+			{m: 0, msgs: []msel{pre(0), pre(1), pre(2)}}, {m: 1, msgs: []msel{pre(0), pre(1), pre(2)}}, {m: 2, msgs: []msel{pre(0), pre(1), pre(2)}},
+			{m: 0, msgs: []msel{com(0), com(1), com(2)}},
+			{m: 1, timeout: true}, {m: 2, timeout: true}, {m: 3, timeout: true},
+		}
+		for name, pfx := range map[string][]pstep{"n4-staged-one-decided-three-laggers-R3": all, "n4-staged-one-decided-three-laggers-late3-R3": late3} {
+			before := len(scs)
+			add(name, 4, nil, in4(), nil, 3, opt{parts: [][][]int{{{0}, {1}, {2}, {3}}}})
+			for _, sc := range scs[before:] {
+				sc.prefix = pfx
+			}
+		}
+	}
 	add("n4-one-without-input-R2", 4, nil, map[int64]int64{1: 2, 2: 3, 3: 4}, nil, 2, opt{})
 	add("n4-byz-leader1-R1-noise1", 4, []int64{0}, in4b(), v12, 1, opt{noise: 1, parts: [][][]int{{{0, 1, 2}}, {{0}, {1, 2}}}})
 	add("n3-distinct-R2-noise1", 3, nil, in3(), nil, 2, opt{noise: 1, parts: [][][]int{{{0, 1, 2}}, {{0}, {1, 2}}}})
